@@ -813,4 +813,47 @@ def rule_interleaved_eval(ctx):
     return r
 
 
-RULES = [rule_interleaved_eval, rule_expand, rule_backend, rule_blanks, rule_ellipsis, rule_implicit, rule_interleaved, rule_single, rule_canon, rule_ncon]
+def rule_implicit_eval(ctx):
+    """(engine E9) The implicit output of the label interface is documented as 'the indices that appear once, in the
+    order they appear on the inputs'.  `find_output_from_inputs` is evaluated on every list of one to three terms of
+    up to three labels from a mixed pool and compared with that definition."""
+    import itertools
+
+    from ..engine.minieval import Mini, NoEval, Raised
+
+    r = RuleResult("C12-IMPLICITEVAL", "the label interface's implicit output is the singles in order of appearance", 1)
+    f = ctx.p.func(C.UTILS, "find_output_from_inputs")
+    C.require(f is not None, "find_output_from_inputs not found")
+    k = ctx.key(f, "C12-IMPLICITEVAL")
+    pool = ["b", "a", 3, (0, 1)]
+    terms = [t for n_ in range(0, 4) for t in itertools.product(pool, repeat=n_) if n_ < 3 or len(set(t)) < 3]
+    bad = None
+    n = 0
+    try:
+        for nops in (1, 2, 3):
+            for combo in itertools.product(terms if nops < 3 else terms[:21], repeat=nops):
+                n += 1
+                flat = [x for t in combo for x in t]
+                want = tuple(x for x in dict.fromkeys(flat) if flat.count(x) == 1)
+                try:
+                    got = Mini({}, budget=5000).call(f.node, [combo])
+                except Raised as e:
+                    bad = bad or (combo, f"raises ({e.text})")
+                    continue
+                except NoEval:
+                    raise
+                except Exception as e:
+                    bad = bad or (combo, f"raises ({type(e).__name__}: {e})")
+                    continue
+                if tuple(got) != want and bad is None:
+                    bad = (combo, f"gives {tuple(got)}, documented is {want}")
+    except NoEval as e:
+        raise AnalysisError(f"find_output_from_inputs: not evaluable by the mini-evaluator ({e})")
+    if bad:
+        r.violation(k, f.loc, f"for the terms {bad[0]}: {bad[1]}")
+    else:
+        r.ok(k, f.loc, f"{n} lists of terms: singles in order of first appearance")
+    return r
+
+
+RULES = [rule_implicit_eval, rule_interleaved_eval, rule_expand, rule_backend, rule_blanks, rule_ellipsis, rule_implicit, rule_interleaved, rule_single, rule_canon, rule_ncon]
